@@ -1,0 +1,89 @@
+//! Verification hooks (only compiled with the cargo feature `verif-hooks`).
+//!
+//! Thin wrappers that expose otherwise crate-private functions to the
+//! external verification harness.  No behaviour is added or changed.
+
+use crate::common::{alc, lct, oti, partition, pkt::Pkt, Profile};
+use std::time::SystemTime;
+
+/// `common::partition::block_partitioning`
+pub fn block_partitioning(b: u64, l: u64, e: u64) -> (u64, u64, u64, u64) {
+    partition::block_partitioning(b, l, e)
+}
+
+/// `common::partition::block_length`
+pub fn block_length(a_large: u64, a_small: u64, nb_a_large: u64, l: u64, e: u64, sbn: u32) -> u64 {
+    partition::block_length(a_large, a_small, nb_a_large, l, e, sbn)
+}
+
+/// `tools::system_time_to_ntp`
+pub fn system_time_to_ntp(time: SystemTime) -> crate::error::Result<u64> {
+    crate::tools::system_time_to_ntp(time)
+}
+
+/// `tools::ntp_to_system_time`
+pub fn ntp_to_system_time(ntp: u64) -> crate::error::Result<SystemTime> {
+    crate::tools::ntp_to_system_time(ntp)
+}
+
+/// Fields of the crate-private `common::pkt::Pkt`
+#[derive(Debug, Clone)]
+pub struct PktFields {
+    /// payload
+    pub payload: Vec<u8>,
+    /// transfer length
+    pub transfer_length: u64,
+    /// encoding symbol id
+    pub esi: u32,
+    /// source block number
+    pub sbn: u32,
+    /// transport object identifier
+    pub toi: u128,
+    /// FDT instance id (TOI 0 only)
+    pub fdt_id: Option<u32>,
+    /// content encoding
+    pub cenc: lct::Cenc,
+    /// EXT_CENC in-band
+    pub inband_cenc: bool,
+    /// close object flag
+    pub close_object: bool,
+    /// source block length
+    pub source_block_length: u32,
+    /// add EXT_TIME sender current time
+    pub sender_current_time: bool,
+}
+
+/// `common::alc::new_alc_pkt`
+pub fn new_alc_pkt(
+    oti: &oti::Oti,
+    cci: &u128,
+    tsi: u64,
+    pkt: &PktFields,
+    rfc3926: bool,
+    now: SystemTime,
+) -> Vec<u8> {
+    let p = Pkt {
+        payload: pkt.payload.clone(),
+        transfer_length: pkt.transfer_length,
+        esi: pkt.esi,
+        sbn: pkt.sbn,
+        toi: pkt.toi,
+        fdt_id: pkt.fdt_id,
+        cenc: pkt.cenc,
+        inband_cenc: pkt.inband_cenc,
+        close_object: pkt.close_object,
+        source_block_length: pkt.source_block_length,
+        sender_current_time: pkt.sender_current_time,
+    };
+    let profile = if rfc3926 {
+        Profile::RFC3926
+    } else {
+        Profile::RFC6726
+    };
+    alc::new_alc_pkt(oti, cci, tsi, &p, profile, now)
+}
+
+/// `common::alc::new_alc_pkt_close_session`
+pub fn new_alc_pkt_close_session(cci: &u128, tsi: u64) -> Vec<u8> {
+    alc::new_alc_pkt_close_session(cci, tsi)
+}
